@@ -362,6 +362,7 @@ fn main() {
         // replayed from every origin must answer exactly as from origin 0
         for i in 0..runs {
             let seed = if a.kv.contains_key("seedx") { a.num("seedx", 0) } else { seed0.wrapping_mul(1_000_003).wrapping_add(i) };
+            mark_run(seed);
             let n = ns[(i as usize) % ns.len()];
             let base = run_one(&kind, "seq", n, seed, 0, None, false);
             let rets = |r: &RunOut| -> Vec<String> { r.outcome.trace.iter().filter(|l| l.starts_with("ret ") || l.starts_with("panic ") || l.starts_with("refill ")).cloned().collect() };
@@ -392,6 +393,7 @@ fn main() {
     }
     for i in 0..runs {
         let seed = if a.kv.contains_key("seedx") { a.num("seedx", 0) } else { seed0.wrapping_mul(1_000_003).wrapping_add(i) };
+        mark_run(seed);
         let n = ns[(i as usize) % ns.len()];
         let origin = origins[(i as usize / ns.len()) % origins.len()];
         let origin = origin - (origin % n as u32);
